@@ -33,6 +33,7 @@ import (
 //	NVH  NEW_VIEW whose embedded PREPREPARE hash differs from the proven/attached block (P4 variant)
 //	NC   the adversary's own PREPARE / COMMIT / PREPREPARE(view 0) / VIEW_CHANGE, genuinely signed over a NON-CANONICAL
 //	     encoding of the signed header (the canonical bytes followed by padding): every field reads the same
+//	CS   own genuinely signed COMMIT carrying ANOTHER member's random-seed share (replayed from that member's COMMIT)
 //	PX   own genuine PREPARE / COMMIT for a hash nobody proposed, in the target's current view
 //	NVT  NEW_VIEW whose embedded proposal is genuinely signed but declares another message type (COMMIT) in its header
 //	NVB  NEW_VIEW valid in every signed part whose attached (unsigned) block body is another block (P4 variant)
@@ -80,7 +81,7 @@ func (a *Adv) soupDependent() bool {
 	if a.e.Cfg.Eager {
 		return true
 	}
-	for _, p := range []string{"XT", "VC", "VCT", "NV", "NVW", "NVH", "NVN", "NVM", "NVE", "NVB", "NVT"} {
+	for _, p := range []string{"XT", "CS", "VC", "VCT", "NV", "NVW", "NVH", "NVN", "NVM", "NVE", "NVB", "NVT"} {
 		if a.on(p) {
 			return true
 		}
@@ -328,6 +329,24 @@ func (a *Adv) build(soup []Sent, t *LState) []int {
 						addRaw(mkBlockRefMsgPad(ref.KP, brefT{T: protocol.LEAN_HELIX_PREPARE, I: kit.Instance, H: H, V: primitives.View(v), Hash: hash}, signerT{ID: b, Mode: "valid"}, nil, nil, pad), "NC")
 					}
 					addRaw(mkBlockRefMsgPad(ref.KC, brefT{T: protocol.LEAN_HELIX_COMMIT, I: kit.Instance, H: H, V: primitives.View(v), Hash: hash}, signerT{ID: b, Mode: "valid"}, share, nil, pad), "NC")
+				}
+			}
+		}
+		if a.on("CS") {
+			shares := map[string][]byte{}
+			for _, sm := range soup {
+				if i := e.msg(int(sm.Msg)).Info; i.Kind == ref.KC && i.Hdr.Height == h && !a.owns(primitives.MemberId(i.Sender.ID)) {
+					shares[i.Sender.ID] = i.Share
+				}
+			}
+			var owners []string
+			for id := range shares {
+				owners = append(owners, id)
+			}
+			sort.Strings(owners)
+			for _, b := range signers {
+				for _, id := range owners {
+					addRaw(mkBlockRefMsg(ref.KC, brefT{protocol.LEAN_HELIX_COMMIT, kit.Instance, H, primitives.View(v), hash}, signerT{ID: b, Mode: "valid"}, shares[id], nil), "CS")
 				}
 			}
 		}
